@@ -793,6 +793,451 @@ def stream_var(run, cases, outs):
                          'comma), undefined names, names differing by - / _ ; 15 fixed boundary cases')
 
 
+# ================================================================================ 5. metamorphic renders
+
+def plain(v):
+    low = v.lower()
+    if any(x in low for x in ('var(', 'attr(', 'inherit', 'initial', 'calc(', 'unset', 'revert', 'invert')):
+        return False
+    if re.search(r'\d{4,}|\de\d|e-\d', low):
+        return False
+    return True
+
+
+class Pools:
+    def __init__(self, gr):
+        self.gr = gr
+        self.cache = {}
+
+    def get(self, name, single=False):
+        key = (name, single)
+        if key not in self.cache:
+            vals = [v for v in self.gr.pools.get(name, []) if plain(v) and v.strip()]
+            if single:
+                vals = [v for v in vals if ' ' not in v.strip() and ',' not in v and '/' not in v]
+            self.cache[key] = sorted(set(vals)) or ['0']
+        return self.cache[key]
+
+    def pick(self, rng, name, single=False):
+        return rng.choice(self.get(name, single))
+
+
+def four_map(vals):
+    top = vals[0]
+    right = vals[1] if len(vals) > 1 else top
+    bottom = vals[2] if len(vals) > 2 else top
+    left = vals[3] if len(vals) > 3 else right
+    return [top, right, bottom, left]
+
+
+def four_longs(name):
+    i = name.rfind('-')
+    return [name + s if i == -1 else name[:i] + s + name[i:] for s in ('-top', '-right', '-bottom', '-left')]
+
+
+def decls(pairs):
+    return ';'.join('%s:%s' % (n, v) for n, v in pairs)
+
+
+def sh_case(rng, P):
+    """(family, shorthand declaration text, equivalent longhand declarations [(name, value)], context)"""
+    fam = rng.choice(['four', 'four', 'side', 'side', 'side', 'border', 'radius', 'radius', 'flex', 'flex', 'columns',
+                      'gap', 'flex-flow', 'list-style', 'text-decoration', 'page-break', 'word-wrap', 'font',
+                      'grid-line', 'background'])
+    ctx = ''
+    if fam == 'four':
+        name = rng.choice(['margin', 'padding', 'border-width', 'border-style', 'border-color'])
+        longs = four_longs(name)
+        vals = [P.pick(rng, longs[0], True) for _ in range(rng.choice([1, 2, 3, 4]))]
+        return fam, name, '%s:%s' % (name, ' '.join(vals)), list(zip(longs, four_map(vals))), 'border-style:solid'
+    if fam in ('side', 'border'):
+        name = rng.choice(['border-top', 'border-right', 'border-bottom', 'border-left', 'outline', 'column-rule']) \
+            if fam == 'side' else 'border'
+        base = 'border-top' if name == 'border' else name
+        comp = {'-width': P.pick(rng, base + '-width', True), '-style': P.pick(rng, base + '-style', True),
+                '-color': P.pick(rng, base + '-color', True)}
+        keep = rng.sample(sorted(comp), rng.choice([1, 2, 3, 3]))
+        rng.shuffle(keep)
+        text = '%s:%s' % (name, ' '.join(comp[k] for k in keep))
+        targets = [name] if name != 'border' else ['border-top', 'border-right', 'border-bottom', 'border-left']
+        longs = [(t + k, comp[k] if k in keep else 'initial') for t in targets for k in ('-width', '-style', '-color')]
+        return fam, name, text, longs, 'columns:2' if name == 'column-rule' else ''
+    if fam == 'radius':
+        h = [P.pick(rng, 'border-top-left-radius', True) for _ in range(rng.choice([1, 2, 3, 4]))]
+        v = [P.pick(rng, 'border-top-left-radius', True) for _ in range(rng.choice([0, 0, 1, 2, 3, 4]))]
+        text = 'border-radius:%s%s' % (' '.join(h), ' / ' + ' '.join(v) if v else '')
+        hh, vv = four_map(h), four_map(v or h)
+        names = ['border-top-left-radius', 'border-top-right-radius', 'border-bottom-right-radius',
+                 'border-bottom-left-radius']
+        return fam, 'border-radius', text, [(n, '%s %s' % (a, b)) for n, a, b in zip(names, hh, vv)], ''
+    if fam == 'flex':
+        g, sh_ = P.pick(rng, 'flex-grow', True), P.pick(rng, 'flex-shrink', True)
+        g, sh_ = g.lstrip('-') or '1', sh_.lstrip('-') or '1'
+        b = rng.choice([x for x in P.get('flex-basis', True) if not re.match(r'^[-+.\d]+$', x)] or ['auto'])
+        form = rng.choice(['none', 'g', 'gs', 'b', 'gb', 'bg', 'gsb', 'bgs', 'auto', 'g0', 'zero'])
+        text, longs = {
+            'none': ('none', ('0', '0', 'auto')), 'g': (g, (g, '1', '0px')), 'gs': ('%s %s' % (g, sh_), (g, sh_, '0px')),
+            'b': (b, ('1', '1', b)), 'gb': ('%s %s' % (g, b), (g, '1', b)), 'bg': ('%s %s' % (b, g), (g, '1', b)),
+            'gsb': ('%s %s %s' % (g, sh_, b), (g, sh_, b)), 'bgs': ('%s %s %s' % (b, g, sh_), (g, sh_, b)),
+            'auto': ('auto', ('1', '1', 'auto')), 'g0': ('%s 0' % g, (g, '0', '0px')), 'zero': ('0', ('0', '1', '0px')),
+        }[form]
+        return fam, 'flex', 'flex:' + text, list(zip(['flex-grow', 'flex-shrink', 'flex-basis'], longs)), 'flexitem'
+    if fam == 'columns':
+        w = rng.choice([x for x in P.get('column-width', True) if x.lower() != 'auto'])
+        c = rng.choice([x for x in P.get('column-count', True) if x.lower() != 'auto'])
+        text, longs = rng.choice([('%s %s' % (w, c), (w, c)), ('%s %s' % (c, w), (w, c)), (w, (w, 'auto')),
+                                  (c, ('auto', c)), ('auto', ('auto', 'auto')), ('auto %s' % c, ('auto', c)),
+                                  ('%s auto' % w, (w, 'auto'))])
+        return fam, 'columns', 'columns:' + text, [('column-width', longs[0]), ('column-count', longs[1])], ''
+    if fam == 'gap':
+        a, b = P.pick(rng, 'row-gap', True), P.pick(rng, 'column-gap', True)
+        if rng.random() < 0.5:
+            return fam, 'gap', 'gap:%s' % a, [('row-gap', a), ('column-gap', a)], 'flex'
+        return fam, 'gap', 'gap:%s %s' % (a, b), [('row-gap', a), ('column-gap', b)], 'flex'
+    if fam == 'flex-flow':
+        d, w = P.pick(rng, 'flex-direction', True), P.pick(rng, 'flex-wrap', True)
+        text, longs = rng.choice([(d, (d, 'initial')), (w, ('initial', w)), ('%s %s' % (d, w), (d, w)),
+                                  ('%s %s' % (w, d), (d, w))])
+        return fam, 'flex-flow', 'flex-flow:' + text, [('flex-direction', longs[0]), ('flex-wrap', longs[1])], 'flex'
+    if fam == 'list-style':
+        comp = {'list-style-type': rng.choice(['disc', 'decimal', 'square', 'upper-roman', 'lower-alpha', 'circle']),
+                'list-style-position': P.pick(rng, 'list-style-position', True),
+                'list-style-image': rng.choice(['url(pattern.png)', 'url(a.png)'])}
+        keep = rng.sample(sorted(comp), rng.choice([1, 2, 3]))
+        rng.shuffle(keep)
+        return (fam, 'list-style', 'list-style:' + ' '.join(comp[k] for k in keep),
+                [(k, comp[k] if k in keep else 'initial') for k in sorted(comp)], 'listitem')
+    if fam == 'text-decoration':
+        comp = {'text-decoration-line': rng.choice(['underline', 'overline', 'line-through', 'underline overline', 'none']),
+                'text-decoration-style': P.pick(rng, 'text-decoration-style', True),
+                'text-decoration-color': P.pick(rng, 'text-decoration-color', True),
+                'text-decoration-thickness': rng.choice(['2px', '10%', 'from-font', '0.1em'])}
+        keep = rng.sample(sorted(comp), rng.choice([1, 2, 3, 4]))
+        rng.shuffle(keep)
+        return (fam, 'text-decoration', 'text-decoration:' + ' '.join(comp[k] for k in keep),
+                [(k, comp[k] if k in keep else 'initial') for k in sorted(comp)], '')
+    if fam == 'page-break':
+        which = rng.choice(['before', 'after', 'inside'])
+        v = rng.choice(['auto', 'avoid'] if which == 'inside' else ['auto', 'left', 'right', 'avoid', 'always'])
+        return fam, 'page-break-' + which, 'page-break-%s:%s' % (which, v), [('break-' + which, 'page' if v == 'always' else v)], ''
+    if fam == 'word-wrap':
+        v = P.pick(rng, 'overflow-wrap', True)
+        return fam, 'word-wrap', 'word-wrap:' + v, [('overflow-wrap', v)], ''
+    if fam == 'font':
+        opt = {'font-style': rng.choice(['italic', 'oblique']), 'font-variant-caps': 'small-caps',
+               'font-weight': rng.choice(['bold', '700', '100', 'lighter']),
+               'font-stretch': rng.choice(['condensed', 'expanded', 'ultra-condensed'])}
+        keep = rng.sample(sorted(opt), rng.choice([0, 1, 2, 3, 4]))
+        rng.shuffle(keep)
+        size = rng.choice(['12px', '1.5em', '80%', 'large', '9pt'])
+        lh = rng.choice([None, None, '15px', '1.5', '120%', 'normal'])
+        family = rng.choice(['weasyprint', 'weasyprint, serif', '"weasyprint"', 'a b, weasyprint'])
+        text = 'font:%s %s%s %s' % (' '.join(opt[k] for k in keep), size, '/' + lh if lh else '', family)
+        longs = [(k, opt[k] if k in keep else 'initial') for k in sorted(opt)]
+        longs += [('font-size', size), ('line-height', lh or 'initial'), ('font-family', family)]
+        return fam, 'font', text, longs, ''
+    if fam == 'grid-line':
+        name = rng.choice(['grid-column', 'grid-row'])
+        a, b = rng.choice(['1', '2', 'span 2', 'auto', '-1']), rng.choice(['3', '4', 'span 2', 'auto', '-1'])
+        if rng.random() < 0.4:
+            return fam, name, '%s:%s' % (name, a), [(name + '-start', a), (name + '-end', 'auto')], 'grid'
+        return fam, name, '%s:%s / %s' % (name, a, b), [(name + '-start', a), (name + '-end', b)], 'grid'
+    c = P.pick(rng, 'background-color', True)
+    return fam, 'background', 'background:' + c, [
+        ('background-color', c), ('background-image', 'initial'), ('background-repeat', 'initial'),
+        ('background-attachment', 'initial'), ('background-position', 'initial'), ('background-size', 'initial'),
+        ('background-clip', 'initial'), ('background-origin', 'initial')], ''
+
+
+CONTEXTS = {
+    '': ('', ''), 'border-style:solid': ('', 'border-style:solid;'), 'columns:2': ('', 'columns:2;'),
+    'flexitem': ('display:flex;width:150px;', ''), 'flex': ('', 'display:flex;flex-wrap:wrap;width:120px;'),
+    'listitem': ('', 'display:list-item;margin-left:30px;'), 'grid': ('display:grid;grid-template-columns:repeat(4, 30px);', ''),
+}
+
+
+def doc(container, pre, rules, attr='', extra_css='', page=''):
+    """rules: text of the rules under test (after the `pre` rule that gives #t non-initial values)"""
+    return ('<style>@page{size:300px 400px;margin:10px;%s}html{font-family:weasyprint;font-size:10px;line-height:12px}'
+            'body{margin:0}.c{%s}#t{%s}%s%s</style><body><div class=c><div id=t%s>abc de<span>fg</span> ab ab ab ab'
+            '</div><div class=s>cd</div><div class=s>ef</div></div>'
+            % (page, container, pre, rules, extra_css, (' style="%s"' % attr.replace('"', '&quot;')) if attr else ''))
+
+
+def pre_rule(rng, P, names):
+    """non-initial values for the longhands under test, so that a reset to initial is visible"""
+    out = []
+    for n in names:
+        if rng.random() < 0.8:
+            out.append((n, P.pick(rng, n)))
+    return decls(out)
+
+
+def place(rng, a_decl, b_decl, container, pre, where=None):
+    """the same declarations in an author rule, in the style attribute, or !important in a rule"""
+    where = where or rng.choice(['rule', 'rule', 'attr', 'important'])
+    if where == 'attr' and '"' not in a_decl + b_decl and "'" not in a_decl + b_decl:
+        return doc(container, pre, '', attr=a_decl), doc(container, pre, '', attr=b_decl)
+    if where == 'important':
+        imp = lambda d: ';'.join(x + ' !important' for x in d.split(';') if x.strip())
+        return (doc(container, pre, '#t{%s}div{%s}' % (imp(a_decl), 'margin:3px')),
+                doc(container, pre, '#t{%s}div{%s}' % (imp(b_decl), 'margin:3px')))
+    return doc(container, pre, '#t{%s}' % a_decl), doc(container, pre, '#t{%s}' % b_decl)
+
+
+LENGTH_PROPS = ['width', 'height', 'margin-left', 'margin-top', 'padding-left', 'padding-bottom', 'border-left-width',
+                'font-size', 'line-height', 'text-indent', 'letter-spacing', 'word-spacing', 'left', 'top', 'min-width',
+                'max-width', 'min-height', 'border-spacing', 'column-gap', 'outline-width', 'flex-basis',
+                'border-top-left-radius', 'outline-offset', 'column-width', 'margin', 'padding', 'border-width',
+                'text-decoration-thickness', 'tab-size', 'background-position', 'background-size', 'column-rule-width']
+PER_INCH = {'in': Fraction(1), 'cm': Fraction(254, 100), 'mm': Fraction(254, 10), 'q': Fraction(1016, 10), 'pt': Fraction(72),
+            'pc': Fraction(6), 'px': Fraction(96)}
+
+
+def spell(px, unit):
+    return dec(Fraction(px) / 96 * PER_INCH[unit]) + unit
+
+
+def gen_pair(rng, P, gr, bad_pool):
+    kind = rng.choice(['sh', 'sh', 'sh', 'perm', 'units', 'units', 'var', 'var', 'bad-decl', 'bad-decl', 'bad-rule'])
+    if kind == 'sh':
+        fam, name, text, longs, ctx = sh_case(rng, P)
+        cont, tctx = CONTEXTS[ctx]
+        pre = tctx + pre_rule(rng, P, [n for n, _ in longs])
+        a, b = place(rng, text, decls(longs), cont, pre)
+        return dict(kind='sh', sig='meta:shorthand:%s' % name, a=a, b=b, note='%s == %s' % (text, decls(longs)))
+    if kind == 'perm':
+        for _ in range(20):
+            fam, name, text, longs, ctx = sh_case(rng, P)
+            if fam in ('side', 'border', 'list-style', 'text-decoration', 'flex-flow', 'columns') and ' ' in text:
+                break
+        cont, tctx = CONTEXTS[ctx]
+        n, v = text.split(':', 1)
+        parts = v.split(' ')
+        if fam == 'text-decoration':          # "underline overline" is one component
+            parts = [longs_v for k, longs_v in longs if longs_v != 'initial']
+        perm = parts[:]
+        rng.shuffle(perm)
+        pre = tctx + pre_rule(rng, P, [k for k, _ in longs])
+        a, b = place(rng, text if fam != 'text-decoration' else '%s:%s' % (n, ' '.join(parts)),
+                     '%s:%s' % (n, ' '.join(perm)), cont, pre)
+        return dict(kind='perm', sig='meta:order:%s' % name, a=a, b=b, note='%s == %s' % (' '.join(parts), ' '.join(perm)))
+    if kind == 'units':
+        prop = rng.choice(LENGTH_PROPS)
+        u1, u2 = rng.sample(ABS_UNITS, 2)
+        k = rng.choice([1, 2, 3])
+        pxs = [Fraction(3 * rng.randint(1, 40), rng.choice([1, 1, 2, 4])) for _ in range(k)]
+        if prop not in ('margin', 'padding', 'border-width', 'border-top-left-radius', 'background-position',
+                        'background-size', 'border-spacing'):
+            pxs = pxs[:1]
+        elif prop in ('border-top-left-radius', 'background-position', 'background-size', 'border-spacing'):
+            pxs = pxs[:2]
+        if rng.random() < 0.12 and prop in ('margin-left', 'margin-top', 'text-indent', 'left', 'top', 'letter-spacing',
+                                            'word-spacing', 'outline-offset', 'margin'):
+            pxs = [-x for x in pxs]
+        ctx = ('position:relative;border-style:solid;outline-style:solid;column-rule-style:solid;'
+               'text-decoration-line:underline;background-image:url(pattern.png);background-repeat:no-repeat;'
+               + ('display:table;' if prop == 'border-spacing' else ''))
+        if rng.random() < 0.15:
+            # the page box
+            pa = 'size:%s %s;margin:%s' % (spell(pxs[0] + 200, u1), spell(300, u1), spell(pxs[0] / 4, u1))
+            pb = 'size:%s %s;margin:%s' % (spell(pxs[0] + 200, u2), spell(300, u2), spell(pxs[0] / 4, u2))
+            return dict(kind='units', sig='meta:units:@page', a=doc('', '', '', page=pa), b=doc('', '', '', page=pb),
+                        note='%s == %s' % (pa, pb))
+        da = '%s:%s' % (prop, ' '.join(spell(x, u1) for x in pxs))
+        db = '%s:%s' % (prop, ' '.join(spell(x, u2) for x in pxs))
+        cont = 'display:flex;' if prop == 'flex-basis' else ''
+        a, b = place(rng, da, db, cont, ctx)
+        return dict(kind='units', sig='meta:units:%s' % prop, a=a, b=b, note='%s == %s' % (da, db))
+    if kind == 'var':
+        names = [n for n in gr.reg['properties'] if P.get(n) != ['0']]
+        prop = rng.choice(names + ['margin', 'padding', 'border-top', 'border-radius', 'flex', 'columns', 'font',
+                                   'text-decoration', 'list-style', 'background', 'outline', 'border-color'])
+        pool = [v for v in (gr.pools.get(prop) or []) if plain(v) and v.strip()] or ['0']
+        v = rng.choice(pool)
+        form = rng.choice(['whole', 'whole', 'fallback', 'nested', 'inherited', 'part', 'two-step', 'undefined-no-fallback'])
+        ctx = 'border-style:solid;position:relative;'
+        cont = ''
+        if form == 'fallback' and ',' in v:
+            form = 'whole'
+        if form == 'whole':
+            da = '--x:%s;%s:var(--x)' % (v, prop)
+        elif form == 'fallback':
+            da = '%s:var(--undefined, %s)' % (prop, v)
+        elif form == 'nested':
+            da = '--x:%s;--y:var(--x);%s:var(--y)' % (v, prop)
+        elif form == 'inherited':
+            da = '%s:var(--x)' % prop
+            cont = '--x:%s;' % v
+        elif form == 'two-step':
+            da = '--y:var(--z, %s);%s:var(--y)' % (v, prop) if ',' not in v else '--x:%s;%s:var(--x)' % (v, prop)
+        elif form == 'undefined-no-fallback':
+            # invalid at computed-value time: as if the property were `unset`
+            da = '%s:var(--undefined)' % prop
+            inh = prop in INHERITED_GUESS
+            db = None
+        else:
+            parts = v.split(' ')
+            i = rng.randrange(len(parts))
+            da = '--x:%s;%s:%s' % (parts[i], prop, ' '.join(parts[:i] + ['var(--x)'] + parts[i + 1:]))
+        if form == 'undefined-no-fallback':
+            return None
+        db = '%s:%s' % (prop, v)
+        a, b = place(rng, da, db, cont, ctx, where=rng.choice(['rule', 'rule', 'attr']))
+        return dict(kind='var', sig='meta:var:%s' % form, a=a, b=b, note='%s == %s' % (da, db))
+    if kind == 'bad-decl':
+        good = []
+        for _ in range(rng.choice([1, 2, 3, 4])):
+            n = rng.choice(['color', 'margin', 'padding-left', 'border', 'width', 'font-size', 'text-align', 'display',
+                            'background', 'line-height', 'float', 'text-decoration', 'border-radius', 'letter-spacing'])
+            pool = [v for v in (gr.pools.get(n) or []) if plain(v) and v.strip()] or ['0']
+            good.append('%s:%s' % (n, rng.choice(pool)))
+        bad = rng.choice(bad_pool)
+        i = rng.randrange(len(good) + 1)
+        withbad = good[:i] + [bad] + good[i:]
+        where = rng.choice(['rule', 'rule', 'attr', 'page', 'container'])
+        ga, gb = ';'.join(good), ';'.join(withbad)
+        if where == 'attr' and '"' not in gb and "'" not in gb and '<' not in gb:
+            a, b = doc('', '', '', attr=ga), doc('', '', '', attr=gb)
+        elif where == 'page':
+            a = doc('', '', '', page='margin:20px;' + ga)
+            b = doc('', '', '', page='margin:20px;' + gb)
+        elif where == 'container':
+            a, b = doc(ga, '', ''), doc(gb, '', '')
+        else:
+            a, b = doc('', '', '#t{%s}.s{color:red}' % ga), doc('', '', '#t{%s}.s{color:red}' % gb)
+        return dict(kind='bad-decl', sig='meta:bad-declaration', a=a, b=b, note='inserted `%s` at %d in {%s}' % (bad, i, ga),
+                    bad=bad)
+    # malformed rule / at-rule between two good rules
+    r1 = rng.choice(['#t{color:red;margin:5px}', '.c{padding:3px}', 'div{border:1px solid}', '@page{margin:30px}',
+                     '@media print{#t{width:100px}}'])
+    r2 = rng.choice(['.s{color:blue;margin-left:7px}', '#t{font-size:12px}', 'span{letter-spacing:2px}',
+                     '@page{size:250px 300px}', 'div>div{padding-top:4px}'])
+    bad = rng.choice(BAD_RULES) if rng.random() < 0.7 else rng.choice(bad_pool) + ';'
+    if rng.random() < 0.3:
+        bad = bad + rng.choice(BAD_RULES)
+    return dict(kind='bad-rule', sig='meta:bad-rule', a=doc('', '', r1 + r2), b=doc('', '', r1 + bad + r2),
+                note='inserted `%s` between `%s` and `%s`' % (bad, r1, r2), r1=r1, r2=r2, bad=bad)
+
+
+INHERITED_GUESS = set()
+
+BAD_RULES = ['@foo bar;', '@foo {a:b}', 'div{color:}', 'div{:red}', 'p[{color:red}', '@import;', '@import url();',
+             '@font-face{src:}', '@font-face{}', '@page :bogus{margin:1px}', '@page foo bar{margin:1px}',
+             '@counter-style x{system:bogus}', '@counter-style{}', '@counter-style none{system:cyclic;symbols:a}',
+             '@media bogus and (x){div{color:red}}', '@media (min-width:){#t{color:green}}', '@supports (x:y){#t{x:y}}',
+             '@namespace bad', '@namespace foo "x";', '<!-- -->', '-->', 'div:unknown-pseudo{color:red}',
+             'div::before::after{color:red}', ':is({color:red}', '@charset "x";', '@layer a;', '@container x{#t{a:b}}',
+             '@keyframes x{from{a:b}}', '@page{@top-left{content:}}', '@page{@bogus{}}', '@page{size:bogus}',
+             '{}', '{color:red}', 'div{}', ';', '@;', '@{}', '#t{@media x{color:red}}', 'div,{color:red}',
+             ',div{color:red}', 'div>{color:red}', '#t::first-line::x{color:red}', '#t:nth-child(){color:red}',
+             '#t:nth-child(2n+){color:red}', '#t:not(){color:red}', '#{color:red}', '.{color:red}', '[=]{color:red}',
+             '#t{color:red;;;}', '@page :first:bogus{margin:0}', '@page{margin:1px 2px 3px 4px 5px}',
+             '@font-face{font-family:x}', '@font-face{font-family:x;src:local()}', '@import "nonexistent.css" bogus;',
+             '#t{--:x}', 'html|div{color:red}', '*|*|*{color:red}', '#t{width:1px !important !important}',
+             '@media{', '}', ')', ']', '#t{color:rgb(1,2}', '@page{@top-left{content:"x"', '#t{"unterminated}']
+
+
+def self_contained_rule(case):
+    """inserting `bad` must leave r1 and r2 standing as rules (CSS error recovery may swallow what follows an
+    unbalanced construct: that is correct behaviour, not a finding)"""
+    import tinycss2
+
+    def rules(text):
+        return [r for r in tinycss2.parse_stylesheet(text, skip_whitespace=True, skip_comments=True)]
+    try:
+        base = [r.serialize() for r in rules(case['r1'] + case['r2'])]
+        full = [r.serialize() for r in rules(case['r1'] + case['bad'] + case['r2'])]
+    except Exception:   # noqa
+        return False
+    return len(base) == 2 and len(full) >= 2 and full[0] == base[0] and full[-1] == base[-1]
+
+
+def self_contained_decl(bad):
+    import tinycss2
+    items = [i for i in tinycss2.parse_blocks_contents(bad + ';zzz:1') if i.type not in ('whitespace', 'comment')]
+    if not items or items[-1].type != 'declaration' or items[-1].name != 'zzz':
+        return False
+    items2 = [i for i in tinycss2.parse_blocks_contents('aaa:1;' + bad) if i.type not in ('whitespace', 'comment')]
+    if not items2 or items2[0].type != 'declaration' or items2[0].name != 'aaa':
+        return False
+    return '}' not in bad and '<' not in bad and all(i.type in ('declaration', 'error') for i in items[:-1])
+
+
+def make_bad_pool(rng, gr, n=160):
+    pool = ['foo:bar', 'colour:red', 'color:12px', 'width:red', 'margin:1px 2px 3px 4px 5px', 'color', 'color:',
+            ':red', 'width:1px 2px', 'border:solid solid', 'font:12px', 'display:bogus', 'margin-middle:1px',
+            '-webkit-foo:bar', 'color:red blue', 'width:-1px', 'padding:-1px', 'line-height:-1', 'volume:3',
+            'border-radius:1px/', 'flex:1 2 3 4', 'columns:1px 2px', 'color:rgb(1,2)', 'width:calc()',
+            'content:bogus()', 'color:#12', 'background:red blue', 'margin:1px,2px', 'width:1px!', 'color:red !bogus',
+            '!important', 'color:red!important!important', 'width:10 px', 'font-size:12', 'width:1e', 'x', '1:2',
+            'width:[1px]', 'width:(1px)', 'color:"red"', 'font-family:', 'margin:', 'width: /**/ ', 'wid/**/th:1px']
+    for _ in range(n):
+        text, kind, name = gen_decl(rng, gr, kind=rng.choice(['cross', 'soup', 'soup', 'unknown', 'notprint', 'empty',
+                                                               'unsupported']))
+        pool.append(text)
+    return [b for b in pool if self_contained_decl(b)]
+
+
+def cases_render(rng, gr, n):
+    P = Pools(gr)
+    bad_pool = make_bad_pool(rng, gr)
+    fixed = [c for c in corpus('render')]
+    cases = []
+    tries = 0
+    while len(cases) < n and tries < 20 * n:
+        tries += 1
+        c = gen_pair(rng, P, gr, bad_pool)
+        if c is None:
+            continue
+        if c['kind'] == 'bad-rule' and not self_contained_rule(c):
+            continue
+        c['fn'] = 'render_pair'
+        cases.append(c)
+    return fixed + cases
+
+
+def stream_render(run, cases, outs):
+    by_kind, nboxes, skipped = {}, 0, 0
+    seen = set()
+    for c, (st, o) in zip(cases, outs):
+        k = by_kind.setdefault(c['kind'], [0, 0])
+        k[0] += 1
+        if st == 'timeout':
+            fail(run, 'render does not end: %s' % c['note'], {'stream': 'render', 'case': c}, signature='timeout:render')
+            continue
+        if st == 'exc':
+            sig = crash_sig(o['site'])
+            if sig not in seen:
+                seen.add(sig)
+                fail(run, 'rendering raised %s at %s (%s)' % (o['type'], o['site'], c['note'][:200]),
+                     {'stream': 'render', 'case': c, 'exc': o}, signature=sig)
+            continue
+        if o.get('skipped'):
+            skipped += 1
+            continue
+        nboxes += o['boxes']
+        if not o['same']:
+            k[1] += 1
+            if c['sig'] not in seen:
+                seen.add(c['sig'])
+                fail(run, 'metamorphic pair differs (%s): %s: %s' % (c['kind'], c['note'][:300], o['diff']),
+                     {'stream': 'render', 'case': c, 'diff': o['diff']}, signature=c['sig'])
+    run.count('render-metamorphic', len(cases), [(c['kind'], c['note']) for c in cases],
+              samples=[{'kind': cases[-1]['kind'], 'note': cases[-1]['note'][:300]}] if cases else [])
+    run.stream_info('render-metamorphic', pairs_and_differences_by_kind=by_kind, boxes=nboxes, skipped_not_bad=skipped,
+                    rule='document pairs rendered with tests.testing_utils (test UA sheet, weasyprint font) and compared '
+                         'box by box: type, geometry (1e-6 relative), text, and every computed style value. sh: a shorthand '
+                         '(20 families incl. margin/padding/border-*, border, border-radius, flex, columns, gap, flex-flow, '
+                         'list-style, text-decoration, page-break-*, word-wrap, font, grid-column/row, background) vs the '
+                         'longhands CSS says it stands for (omitted = initial), after a rule giving the longhands other values; '
+                         'perm: two orders of the components; units: the same lengths spelled in two absolute units (32 '
+                         'properties and @page size/margin); var: var(--x) / fallback / nested / inherited / partial vs the '
+                         'substituted text; bad-decl: a declaration that yields nothing inserted anywhere in a rule, a style '
+                         'attribute, @page or a parent rule vs absent; bad-rule: one of 70 malformed rules/at-rules (or a stray '
+                         'declaration) between two good rules vs absent. Placement: author rule, style attribute, !important')
+
+
 # ================================================================================ check
 
 def check(run):
@@ -824,7 +1269,8 @@ def check(run):
     streams = [('pp', cases_pp(rng, gr, 12000 if thorough else 2600)),
                ('dispatch', cases_dispatch(rng, gr, 20000 if thorough else 4000)),
                ('units', cases_units(rng, 2000 if thorough else 300)),
-               ('var', cases_var(run, rng, 8000 if thorough else 1500))]
+               ('var', cases_var(run, rng, 8000 if thorough else 1500)),
+               ('render', cases_render(rng, gr, 3000 if thorough else 500))]
     allc = [c for _, cs in streams for c in cs]
     outs = run_multi(allc, limit=60)
     res, k = {}, 0
@@ -835,6 +1281,7 @@ def check(run):
     stream_dispatch(run, gr, *res['dispatch'])
     stream_units(run, reg, *res['units'])
     stream_var(run, *res['var'])
+    stream_render(run, *res['render'])
     run.stream_info('reported-findings-not-yet-registered', hits=dict(LOCAL_HITS), signatures=LOCAL_KNOWN,
                     rule='crashes of the unchanged tree found by this check; their inputs stay in the streams')
 
